@@ -98,7 +98,7 @@ fn weights_for(focus: &str) -> [u32; OP_KINDS] {
         "C06" => [45, 5, 12, 0, 12, 0, 0, 0, 0, 0, 0, 0, 4, 0, 4, 10, 8, 0, 0, 0],
         "C11" => [50, 5, 0, 0, 5, 0, 0, 0, 0, 0, 0, 0, 2, 0, 8, 0, 0, 0, 30, 0],
         "C12" => [35, 5, 0, 0, 5, 0, 0, 0, 0, 0, 0, 0, 20, 25, 10, 0, 0, 0, 0, 0],
-        "C13" => [25, 10, 0, 0, 6, 18, 14, 8, 12, 0, 4, 0, 2, 0, 4, 0, 0, 0, 0, 0],
+        "C13" => [25, 10, 8, 0, 6, 18, 14, 8, 12, 0, 4, 0, 2, 0, 4, 0, 0, 0, 0, 0],
         "C14" => [35, 5, 0, 0, 5, 0, 0, 4, 0, 25, 12, 0, 2, 0, 6, 0, 0, 6, 0, 0],
         _ => [30, 5, 8, 4, 6, 5, 5, 2, 4, 5, 3, 2, 4, 4, 4, 3, 3, 2, 1, 2],
     }
@@ -846,6 +846,18 @@ impl<'a> BoardSim<'a> {
                         valid.push(uci.clone());
                     }
                     self.bb.unmake(mv);
+                    if self.focus == "C13" {
+                        // the text of EVERY pseudo-legal move of the position goes through find_uci:
+                        // accepted exactly if legal, and nothing changes either way
+                        let got = self.bb.find_uci(&uci);
+                        self.res.bump("op.find_uci_of_pseudo_legal");
+                        if got.is_ok() == mover_in_check {
+                            return Err(viol("C13", if mover_in_check { "illegal_move_accepted" } else { "legal_move_rejected" }, format!("find_uci({:?}) at {} -> {:?}", uci, self.rf.to_fen(), got.map(|m| m.to_uci_string()))));
+                        }
+                        if snap(&self.bb) != before {
+                            return Err(viol("C13", "rejected_or_probed_move_changed_board", format!("find_uci({:?}) at {}", uci, self.rf.to_fen())));
+                        }
+                    }
                     let now = snap(&self.bb);
                     if now != before {
                         let r = render(&self.bb).map(|p| p.to_fen()).unwrap_or_else(|e| e);
